@@ -11,6 +11,9 @@ func genRace(r *Rng, prop string) *Scenario {
 	cfg.LatC2BUs, cfg.LatB2CUs, cfg.DialLatUs = 10, 10, 5
 	cfg.BrokerMethod = r.pick("A", "B")
 	cfg.AutoPubRel = true
+	if prop == "C17" {
+		return genRaceC17(r, sc)
+	}
 	kind := r.weighted(3, 5, 2)
 	if prop == "C15" {
 		kind = 0
@@ -46,6 +49,9 @@ func genRace(r *Rng, prop string) *Scenario {
 			op.Kind, op.Handler = "handle", 1+r.IntN(2)
 		}
 		return op
+	}
+	if kind == 0 && prop != "C15" && r.chance(0.3) {
+		return genRaceHeld(r, sc)
 	}
 	if kind == 0 {
 		// BaseClient: concurrent callers + inbound traffic acknowledged by the reader
@@ -140,6 +146,11 @@ func genRace(r *Rng, prop string) *Scenario {
 				op.OnDial = conn
 				addOp(op)
 			}
+			// a handler registration racing with SetClient / Connect of the next connection
+			addOp(Op{Kind: "handle", Handler: 1 + r.IntN(2), OnDial: conn})
+			if r.chance(0.5) {
+				addOp(Op{Kind: "probe", Repeat: int(r.between(1, 20)), OnDial: conn})
+			}
 		}
 		t += 3000
 	}
@@ -195,5 +206,88 @@ func genRaceManual(r *Rng, sc *Scenario) *Scenario {
 		t += 2000
 	}
 	sc.HorizonUs, sc.EndUs = t+2000, t+6000
+	return sc
+}
+
+// genRaceHeld: many requests wait for withheld acknowledgements; at one
+// instant some callers are cancelled while the answers of others are released,
+// so that abandoning callers and the reader goroutine run at the same time.
+func genRaceHeld(r *Rng, sc *Scenario) *Scenario {
+	cfg := &sc.Cfg
+	cfg.Client = "base"
+	cfg.HoldAcks = true
+	cfg.InitIDs = []uint32{uint32(r.pickI(0, 0x7FFF, 0xFFF0))}
+	sc.Ops = append(sc.Ops, Op{AtUs: 0, Actor: 1, Kind: "handle", Handler: 1})
+	sc.Ops = append(sc.Ops, Op{AtUs: 1, Actor: 0, Kind: "connect"})
+	t := int64(1000)
+	held := 0
+	for ph := 0; ph < int(r.between(1, 3)); ph++ {
+		n := int(r.between(4, 12))
+		first := len(sc.Ops)
+		for i := 0; i < n; i++ {
+			op := Op{AtUs: t, Actor: 100*ph + 10 + i}
+			switch r.weighted(4, 4, 2, 2) {
+			case 0:
+				op.Kind, op.QoS, op.Topic, op.Token = "publish", 1, "a", fmt.Sprintf("h%d_%d", ph, i)
+			case 1:
+				op.Kind, op.QoS, op.Topic, op.Token = "publish", 2, "a", fmt.Sprintf("h%d_%d", ph, i)
+			case 2:
+				op.Kind, op.Subs = "subscribe", []SubReq{{fmt.Sprintf("f%d_%d", ph, i), byte(r.IntN(3))}}
+			case 3:
+				op.Kind, op.Topics = "unsubscribe", []string{fmt.Sprintf("f%d_%d", ph, i)}
+			}
+			sc.Ops = append(sc.Ops, op)
+		}
+		// one instant later: cancel some, answer the others
+		t2 := t + 500
+		for i := 0; i < n; i++ {
+			if i%2 == 0 {
+				sc.Ops = append(sc.Ops, Op{AtUs: t2, Actor: -1, Kind: "cancel", Target: first + i})
+			} else {
+				sc.Script = append(sc.Script, Out{Conn: 1, AtUs: t2, Kind: "release", Held: held + i})
+			}
+		}
+		held += n
+		// and the rest a little later (answers for abandoned requests included)
+		for i := 0; i < n; i++ {
+			sc.Script = append(sc.Script, Out{Conn: 1, AtUs: t2 + 300, Kind: "release", Held: held - n + i})
+		}
+		t += 2000
+	}
+	sc.HorizonUs, sc.EndUs = t+2000, t+4000
+	return sc
+}
+
+// genRaceC17: Handle racing with SetClient / Connect of the next connection
+// under real parallelism; a message that arrives at a later fake instant on that
+// connection must reach the handler registered last.
+func genRaceC17(r *Rng, sc *Scenario) *Scenario {
+	cfg := &sc.Cfg
+	cfg.Client = "reconnect"
+	cfg.ReconnBaseUs, cfg.ReconnMaxUs = 200, 800
+	cfg.InitIDs = spacedInitIDs(r, 12)
+	sc.Ops = append(sc.Ops, Op{AtUs: 0, Actor: 1, Kind: "handle", Handler: 1})
+	sc.Ops = append(sc.Ops, Op{AtUs: 1, Actor: 0, Kind: "connect"})
+	t := int64(500)
+	h := 1
+	nconn := int(r.between(2, 5))
+	for k := 1; k < nconn; k++ {
+		// connection k is cut; while connection k+1 is being installed a new handler is registered
+		sc.Faults = append(sc.Faults, Fault{Kind: "cutAt", Conn: k, AtUs: t, Reset: r.chance(0.3)})
+		h++
+		sc.Ops = append(sc.Ops, Op{Kind: "handle", Handler: h, Actor: 10 + k, OnDial: k + 1})
+		if r.chance(0.5) {
+			sc.Ops = append(sc.Ops, Op{Kind: "probe", Repeat: int(r.between(1, 10)), Actor: 30 + k, OnDial: k + 1})
+		}
+		t += cfg.ReconnBaseUs + 600
+		q := byte(r.IntN(2))
+		p := &Pkt{Type: TPublish, QoS: q, Topic: "a/x", Pay: fmt.Sprintf("in%d", k)}
+		if q > 0 {
+			p.ID = uint16(100 + k)
+		}
+		sc.Script = append(sc.Script, Out{Conn: k + 1, AtUs: t, Kind: "pkt", Pkt: p})
+		t += 500
+	}
+	sc.HorizonUs, sc.EndUs = t+2000, t+4000
 	return sc
 }
